@@ -5,6 +5,11 @@
 #![allow(clippy::all, dead_code)]
 
 use super::*;
+// explicit imports: do not rely on what the parent module happens to import
+#[allow(unused_imports)]
+use std::sync::Arc;
+#[allow(unused_imports)]
+use std::time::Duration;
 use serde_json::{Value, json};
 
 #[path = "/verif/harness/common/util.rs"]
